@@ -136,6 +136,9 @@ const FAULT_KINDS: &[&str] = &[
     "drop-byte",
     "insert-byte",
     "insert-multibyte-char",
+    "append-other-file",
+    "written-twice",
+    "copy-inside-itself",
 ];
 
 fn damage(rng: &mut Rng, bytes: &mut Vec<u8>, kind: &str, other: &[u8]) {
@@ -191,6 +194,19 @@ fn damage(rng: &mut Rng, bytes: &mut Vec<u8>, kind: &str, other: &[u8]) {
         "drop-byte" => {
             bytes.remove(rng.upto(n));
         }
+        "append-other-file" => {
+            // two files run together: the other one follows where this one should end
+            bytes.extend_from_slice(other);
+        }
+        "written-twice" => {
+            let copy = bytes.clone();
+            bytes.extend_from_slice(&copy);
+        }
+        "copy-inside-itself" => {
+            let copy = bytes.clone();
+            let at = rng.upto(n + 1);
+            bytes.splice(at..at, copy);
+        }
         "insert-multibyte-char" => {
             let at = rng.upto(n + 1);
             let ch = *rng.pick(&["λ", "ü", "中", "\u{feff}", "é", "\u{1F600}"]);
@@ -232,7 +248,16 @@ fn generate_d(seed: u64, _quick: bool) -> Value {
                     special.push((files[target].0.clone(), kind.to_string()));
                 }
             }
-            k => damage(&mut rng, &mut files[target].1, k, &other),
+            k => {
+                // what gets mixed in: another file of the same world if there is one
+                let mixin: Vec<u8> = if files.len() > 1 && rng.chance(2, 3) {
+                    let o = (target + 1 + rng.upto(files.len() - 1)) % files.len();
+                    files[o].1.clone()
+                } else {
+                    other.clone()
+                };
+                damage(&mut rng, &mut files[target].1, k, &mixin)
+            }
         }
         faults.push(json!({"kind": kind, "file": files[target].0}));
     }
